@@ -110,4 +110,45 @@ Section PruneSpec.
     fsamples_eqb (fsamples p') (spec_prune p drop keep (fsamples p)) && never_emptied (fsamples p) (fsamples p').
   Definition check_prune_from (p : profile) (re : string) (p' : profile) : bool :=
     fsamples_eqb (fsamples p') (spec_prune_from p re (fsamples p)) && never_emptied (fsamples p) (fsamples p').
+
+  (* ---- histories: the rule of a sequence of operations on one profile is the composition of the
+          rules, each read on the frames the previous one left; nothing else may carry over *)
+  Variable V : string -> bool.
+
+  (* the expressions RemoveUninteresting puts in force: none without drop_frames or when one does
+     not compile (the operation then does nothing) *)
+  Definition removeun_active (p : profile) : option (string * option string) :=
+    if String.eqb (p_dropframes p) "" then None
+    else if negb (V (anchor (p_dropframes p))) then None
+    else if String.eqb (p_keepframes p) "" then Some (anchor (p_dropframes p), None)
+    else if negb (V (anchor (p_keepframes p))) then None
+    else Some (anchor (p_dropframes p), Some (anchor (p_keepframes p))).
+
+  Definition spec_step (p : profile) (ss : list fsample) (st : pstep) : list fsample :=
+    match st with
+    | SPrune d k => spec_prune p d k ss
+    | SPruneFrom re => spec_prune_from p re ss
+    | SRemoveUn => match removeun_active p with
+                   | Some (d, k) => spec_prune p d k ss
+                   | None => ss
+                   end
+    end.
+  Definition spec_steps (p : profile) (sts : list pstep) (ss : list fsample) : list fsample :=
+    fold_left (spec_step p) sts ss.
+
+  (* finding classes met along the way: each step's class is read on the profile the step receives *)
+  Definition step_classes (q : profile) (st : pstep) : list Z :=
+    match st with
+    | SPrune d k => if in_F14 q d k then [14] else []
+    | SPruneFrom re => if in_F15 q re then [15] else []
+    | SRemoveUn => match removeun_active q with
+                   | Some (d, k) => if in_F14 q d k then [14] else []
+                   | None => []
+                   end
+    end.
+  Fixpoint steps_classes (q : profile) (sts : list pstep) : list Z :=
+    match sts with
+    | [] => []
+    | st :: r => (step_classes q st ++ steps_classes (run_step M V q st) r)%list
+    end.
 End PruneSpec.
